@@ -202,6 +202,8 @@ def explore_scenario_run(ix, symbols=None, cls="behave.model:Scenario", mutate=N
             if ev[2] is not None and ev[2] != g.get("current_element") and "tag" not in name:
                 g.setdefault("hk.err", "hook %s called for a different element" % name)
         elif k == "step.run":
+            if g.get("cached_last") is not None:
+                g["cache_then_child"] = True
             if g.get("hk") in ("B",):
                 g["hk"] = "BODY"
             elif g.get("hk") in ("A", "AT", "BT"):
@@ -263,6 +265,7 @@ def explore_scenario_run(ix, symbols=None, cls="behave.model:Scenario", mutate=N
             final = isinstance(v, EnumVal) and v.name != "untested"
             g["cached_last"] = (g.get("phase", "before"), "final" if final else
                                 ("untested" if isinstance(v, EnumVal) else "computed"))
+            g["cache_then_child"] = False
 
     def _close_iteration(st):
         g = st.ghost
@@ -398,7 +401,7 @@ def explore_scenario_run(ix, symbols=None, cls="behave.model:Scenario", mutate=N
             "undefined_added": g.get("undefined_added", False),
             "skipped_by_step": g.get("skipped_by_step", False),
             "gap": g.get("gap", False), "v2_err": g.get("v2.err"),
-            "cached_last": g.get("cached_last"),
+            "cached_last": g.get("cached_last"), "cache_then_child": g.get("cache_then_child", False),
             "notrun": sorted(k[7:] for k in g if k.startswith("notrun_")),
             "imprecise": list(s.imprecise),
         }
@@ -487,6 +490,8 @@ def _bracket_recorder(entity, body_event="child.run", continue_flag=False):
             if ev[2] is not None and ev[2] != g.get("current_element"):
                 g.setdefault("hk.err", "hook %s called for/attributed to a different element" % name)
         elif k == body_event:
+            if g.get("cached_last") is not None:
+                g["cache_then_child"] = True
             if g.get("hk") == "B":
                 g["hk"] = "BODY"
             elif g.get("hk") in ("A", "AT", "BT"):
@@ -538,6 +543,7 @@ def _bracket_recorder(entity, body_event="child.run", continue_flag=False):
                              "(a report written at that callback shows the old status)" % (entity, v.name, entity))
             g["cached_last"] = (g.get("phase", "before"), "final" if final else
                                 ("untested" if isinstance(v, EnumVal) else "computed"))
+            g["cache_then_child"] = False
         elif k == "loopexit":
             if g.get("phase") == "loop" or ev[2] in ("run_items", "scenarios"):
                 g["phase"] = "after"
@@ -667,6 +673,7 @@ def explore_container_run(ix, cls, thorough=False, mutate=None):
                            ("none" if so.fields.get("background") is None else "undecided")),
             "scope": g.get("scope"), "scope_err": g.get("scope.err"),
             "n_run": g.get("n_run", 0), "cached": so.fields.get("_cached_status"), "cached_last": g.get("cached_last"),
+            "cache_then_child": g.get("cache_then_child", False),
             "hook_failed": so.fields.get("hook_failed"),
             "should_skip": so.fields.get("should_skip"), "skipped_midrun": g.get("skipped_midrun", False) or g.get("hook_skipped_element", False),
             "should_skip_entry": g.get("should_skip_entry"),
@@ -720,6 +727,7 @@ def explore_outline_run(ix, thorough=False, mutate=None):
         facts = {"entity": "outline", "ret": v if k == "val" else None, "child_failed": g.get("child_failed", False),
                  "stop_err": g.get("stop.err"), "n_run": g.get("n_run", 0),
                  "cached": s.obj(me).fields.get("_cached_status"), "cached_last": g.get("cached_last"),
+                 "cache_then_child": g.get("cache_then_child", False),
                  "stop": b(s.obj(cfg).fields.get("stop")), "aborted": g.get("aborted"),
                  "imprecise": list(s.imprecise)}
         exits.append(Exit(s, k, v, facts))
